@@ -167,6 +167,7 @@ package callbacks
 //@   min-sites 4
 //@   let tracked = !restricted || (!stmt.SkipHooks && field.AutoUpdateTime > 0)
 //@   assert unselected-only-if-unrestricted-or-tracked-time: selectColumns[field.DBName] || (!has(selectColumns, field.DBName) && tracked) || (field.DBName == "" && (selectColumns[field.Name] || (!has(selectColumns, field.Name) && tracked))) [C10]
+//@   assert struct-field-grants-update: defined(isDiffSchema) ==> field.Updatable [C10]
 //@ immutable Statement.SkipHooks
 //@   writers gorm.(*DB).Session gorm.(*DB).getInstance gorm.(*Statement).clone gorm.(*DB).UpdateColumn gorm.(*DB).UpdateColumns gorm.(*DB).*
 //@   tags C10 C13
